@@ -36,7 +36,7 @@ func init() {
 		ID:    "C02",
 		Level: "exploration",
 		Rule: "inputs: seeded models from internal/gen biased towards everything that passes through a Go map on its way to a sequence (>=2 build.ssh keys, extra_hosts with several addresses, KEY=VALUE sets in both spellings, several IPAM pools, port ranges, " +
-			"multi-file layouts with attributes split between main and override file, extends chains, include, profiles, variables, env/label files, x- extensions), the loader's own compose files, and deliberately invalid models; some carry `version:`. " +
+			"multi-file layouts with attributes split between main and override file, extends chains, include, profiles, variables, env/label files, x- extensions), the loader's own compose files, deliberately invalid models, and hand-shaped inputs (a dependency rewritten by an override next to short-syntax dependencies; one integer/size/duration-typed attribute out of 16 supplied through a variable whose text has several plausible readings such as 0440, 0x1F, 1_000, 1e2); some carry `version:`. " +
 			"Per input: N loads in one process (quick 12, thorough 40) interleaved with the other inputs of the batch in seeded shuffled order + K loads with all mapping keys permuted (quick 3, thorough 10) + 1 load in a fresh process per batch; " +
 			"the first successful project is also rendered three times. A case is non-trivial when the input loaded successfully at least twice and was compared; distinct = distinct inputs.",
 		Assumptions: []string{
